@@ -69,3 +69,9 @@ Definition resolve_union (members : list str) : str :=
   | [m] => m
   | _ => s_Union_open ++ join [44;32] (dedup members) ++ [93]
   end.
+
+(* the alias / annotation text: a nullable union (nullable: true, or a {"type": "null"} member, which the
+   parser removes from the member list) gets " | None" appended *)
+Definition s_or_None : str := [32;124;32;78;111;110;101].
+Definition alias_type (members : list str) (nullable : bool) : str :=
+  resolve_union members ++ (if nullable then s_or_None else []).
